@@ -59,12 +59,39 @@ def sources(ctx):
             elif n.endswith("::into_iter") and "HashMap" in g and "RandomState" in g:
                 map_iters.setdefault(k, F.site_str(b, t["sp"]))
     # ---- rand callers
+    # the seeding functions, by role: the callees of the blank-machine constructor whose private cone draws from rand;
+    # everything in those cones (helpers, closures) may call rand
     allowed = set()
-    for nm in ("randomized_register_set", "randomized_xmm_set"):
-        try:
-            allowed.add(facts.one(nm)["path"])
-        except KeyError as e:
-            ck.violation("C20.sources", "fn=" + nm, str(e))
+    seed_roots = set()
+    empty_b = facts.bodies[ctx.roles.hook_roles()[4]]
+
+    def draws(k, seen):
+        """collects the private cone of k into `seen`; true when anything in it calls rand"""
+        if k in seen or k not in facts.bodies:
+            return False
+        seen.add(k)
+        hit = k in rand_callers or any(c in rand_callers for c in facts.closures_of(k))
+        for kk in [k] + list(facts.closures_of(k)):
+            for blk in facts.bodies[kk]["blocks"]:
+                t = blk["term"]
+                if t["k"] == "call":
+                    cn = F.callee_name(t)
+                    cb = facts.bodies.get(cn)
+                    if cb is not None and not cb["glue"] and cb["vis"] != "pub" and cb["kind"] != "Closure":
+                        hit = draws(cn, seen) or hit
+        return hit
+    for blk in empty_b["blocks"]:
+        t = blk["term"]
+        if t["k"] == "call":
+            cn = F.callee_name(t)
+            seen = set()
+            if cn in facts.bodies and not facts.bodies[cn]["glue"] and draws(cn, seen):
+                seed_roots.add(cn)
+                allowed |= seen
+                for k_ in list(seen):
+                    allowed |= set(facts.closures_of(k_))
+    if not seed_roots:
+        ck.violation("C20.sources", "seeding", "the blank-machine constructor calls nothing that draws random values")
     pipe_closures = set()
     try:
         from . import C13
@@ -87,7 +114,7 @@ def sources(ctx):
             continue
         for blk in b["blocks"]:
             t = blk["term"]
-            if t["k"] == "call" and F.callee_name(t) in allowed:
+            if t["k"] == "call" and F.callee_name(t) in seed_roots:
                 inst = "seeding called from %s" % b["name"]
                 if b["path"] == ctx.roles.hook_roles()[4]:
                     # the result feeds the matching field of the MachineState aggregate
